@@ -15,6 +15,7 @@ func init() {
 			"PV-FRESH: helpers that insert into a by/without set get nil or a clone",
 			"PV-WRITEBACK for struct-valued map elements; PV-WHOLE: the step's samples of the aggregating iterators are only reset and appended to",
 			"PV-PAIR: the sample operation of a binary operation is applied only to a pair matched by grouping key; CH-SIB: all AggregatedLabels implementers agree on the key of the empty set; PV-RESET with the tightened construction-mode exemption; step stamped",
+			"PV-FRESH: per-step group tables; CH-SIB: Key and AsLokiAPI add no condition of their own to the shared enumeration",
 		},
 		NotDecided: []string{"64-bit hash collisions between distinct encodings", "count conservation as arithmetic"},
 		Rules: func(r *Run) {
